@@ -4,6 +4,7 @@
 (*   multi-band amplifier  C = [-1 875 000, 3 025 000]   L = [-6 600 000, -3 000 000]                          *)
 (*   test_fixed_gain       [-1 825 000, 3 025 000]       std_low_gain_bis [-1 850 000, 3 050 000]              *)
 (*   SI default            [-1 800 000, 2 000 000]       wide_band (variant)  [-7 100 000, 3 100 000]                  *)
+(*   three-band amplifier (variant: the C and L amplifiers above + an S-band one)   S = [3 900 000, 6 900 000]  *)
 (* Candidates sit exactly on band edges, one MHz beyond them, in the C/L gap, touch each other exactly,        *)
 (* overlap by one MHz, have the baud rate equal to / one MHz above the slot, and two slot widths.              *)
 EXTENDS ChannelSet, TLC, Json
@@ -25,11 +26,15 @@ MCCandidates == {
     C(-3024999, 50000, 32000, 13),     \* one MHz above
     C(-6575000, 50000, 32000, 14),     \* lower edge of L exactly
     C( 1000000, 50000, 50001, 15),     \* baud rate one MHz wider than the slot
-    C(       0, 50000, 40000, 16) }    \* a second, different carrier declared at the frequency of label 5
+    C(       0, 50000, 40000, 16),     \* a second, different carrier declared at the frequency of label 5
+    C( 3925000, 50000, 32000, 17) }    \* lower edge of S exactly: outside every amplifier but the three-band one
 
 Passive == [kind |-> "passive", bands |-> <<>>]
 Amp(lo, hi) == [kind |-> "amp", bands |-> <<<<lo, hi>>>>]
 Multi == [kind |-> "multi", bands |-> << <<-1875000, 3025000>>, <<-6600000, -3000000>> >>]    \* C first, as configured
+\* three bands, configured C, L, S: the band in the middle of the configuration is not the one in the middle of the
+\* frequency axis (the filter splits in frequency order L, C, S; the amplifier in configuration order)
+Multi3 == [kind |-> "multi", bands |-> << <<-1875000, 3025000>>, <<-6600000, -3000000>>, <<3900000, 6900000>> >>]
 MCPaths == << <<Amp(-1825000, 3025000), Passive, Amp(-1850000, 3050000)>>,          \* single band
               <<Multi, Passive, Multi>>,                                            \* multi band
               <<Multi, Passive, Amp(-1850000, 3050000)>>,                           \* mixed
@@ -37,7 +42,8 @@ MCPaths == << <<Amp(-1825000, 3025000), Passive, Amp(-1850000, 3050000)>>,      
               \* one wide band spanning L and C met before / after the multi-band amplifier: the common band is the
               \* two bands of the multi-band amplifier whatever the order of the amplifiers on the path
               <<Amp(-7100000, 3100000), Passive, Multi>>,
-              <<Multi, Passive, Amp(-7100000, 3100000)>> >>
+              <<Multi, Passive, Amp(-7100000, 3100000)>>,
+              <<Multi3, Passive, Multi3>> >>                                        \* three bands (three parts to mux)
 MCDefaultBand == <<-1800000, 2000000>>
 
 \* emission for the spec -> code replay (B2): one line per finished walk
@@ -52,5 +58,7 @@ ASSUME CommonIsOrderFree
 
 \* vacuity witnesses (each must be VIOLATED when listed as an invariant)
 WitnessMultiSplit == ~(status = "filtered" /\ pos = 3 /\ pid = 2 /\ \E c, d \in SeqSet(spec) : c.f < -3000000 /\ d.f > 0)
+WitnessThreeBands == ~(status = "filtered" /\ pos = 3 /\ pid = 7 /\ \E c, d, e \in SeqSet(spec) : c.f < -3000000 /\ d.f \in -1850000..3000000
+                                                                                                  /\ e.f > 3900000)
 WitnessDropped    == ~(status = "filtered" /\ Len(kept) < Len(input) /\ Len(kept) >= 2)
 ==============================================================================
